@@ -5,19 +5,19 @@ import (
 	"fmt"
 	"regexp"
 	"strconv"
-	"strings"
 
 	"github.com/wundergraph/graphql-go-tools/v2/pkg/engine/resolve"
 )
 
-// The upstream event is {"data":{"ev":{"id":N,"k":"<key>","g":G,"x":"xN"}}}; the response of every
+// The upstream event is {"data":{"ev":{"id":N,"k":"<key>","g":G,"x":"xN","s":"sG","meta":{…}}}} (the
+// fields after x only feed the filters); the response of every
 // subscriber is a plain projection of it, so the solo rendering of an event for a subscriber is
 // known by construction (and cross-checked against a private Resolvable, see SoloRender).
 
 const NumVariants = 4
 
 func EventPayload(id int, key string, g int) string {
-	return fmt.Sprintf(`{"data":{"ev":{"id":%d,"k":"%s","g":%d,"x":"x%d"}}}`, id, key, g, id)
+	return fmt.Sprintf(`{"data":{"ev":{"id":%d,"k":"%s","g":%d,"x":"x%d","s":"s%d","meta":{"m":%d,"t":"t.%d","deep":{"q":"q%d"}}}}}`, id, key, g, id, g, g*10+1, g, g)
 }
 
 func variantObject(v int) *resolve.Object {
@@ -85,109 +85,4 @@ func ParseDelivered(msg string) (id int, key string, ok bool) {
 		key = k[1]
 	}
 	return id, key, true
-}
-
-// FilterSpec is a subscription filter over the event group g ∈ 0..3, rendered from variables.
-type FilterSpec struct {
-	Kind int   // 0 none, 1 In(single), 2 In(array), 3 Not(In(array)), 4 Or(In(single a), In(single b)), 5 And(In(array), Not(In(single)))
-	A    []int // variable "fa"
-	B    []int // variable "fb"
-}
-
-func (f FilterSpec) String() string {
-	switch f.Kind {
-	case 0:
-		return "none"
-	case 1:
-		return fmt.Sprintf("g=%d", f.A[0])
-	case 2:
-		return fmt.Sprintf("g in %v", f.A)
-	case 3:
-		return fmt.Sprintf("g not in %v", f.A)
-	case 4:
-		return fmt.Sprintf("g=%d or g=%d", f.A[0], f.B[0])
-	default:
-		return fmt.Sprintf("g in %v and g!=%d", f.A, f.B[0])
-	}
-}
-
-func in(xs []int, g int) bool {
-	for _, x := range xs {
-		if x == g {
-			return true
-		}
-	}
-	return false
-}
-
-// Pass is the reference semantics: does an event of group g pass the filter?
-func (f FilterSpec) Pass(g int) bool {
-	switch f.Kind {
-	case 0:
-		return true
-	case 1:
-		return g == f.A[0]
-	case 2:
-		return in(f.A, g)
-	case 3:
-		return !in(f.A, g)
-	case 4:
-		return g == f.A[0] || g == f.B[0]
-	default:
-		return in(f.A, g) && g != f.B[0]
-	}
-}
-
-func jsonInts(xs []int, single bool) string {
-	if single {
-		return strconv.Itoa(xs[0])
-	}
-	p := make([]string, len(xs))
-	for i, x := range xs {
-		p[i] = strconv.Itoa(x)
-	}
-	return "[" + strings.Join(p, ",") + "]"
-}
-
-// Vars renders the request variables the filter templates read.
-func (f FilterSpec) Vars() string {
-	switch f.Kind {
-	case 0:
-		return `{}`
-	case 1:
-		return `{"fa":` + jsonInts(f.A, true) + `}`
-	case 2, 3:
-		return `{"fa":` + jsonInts(f.A, false) + `}`
-	case 4:
-		return `{"fa":` + jsonInts(f.A, true) + `,"fb":` + jsonInts(f.B, true) + `}`
-	default:
-		return `{"fa":` + jsonInts(f.A, false) + `,"fb":` + jsonInts(f.B, true) + `}`
-	}
-}
-
-func inVar(name string) *resolve.SubscriptionFieldFilter {
-	return &resolve.SubscriptionFieldFilter{
-		FieldPath: []string{"data", "ev", "g"},
-		Values: []resolve.InputTemplate{{Segments: []resolve.TemplateSegment{{
-			SegmentType:        resolve.VariableSegmentType,
-			VariableKind:       resolve.ContextVariableKind,
-			VariableSourcePath: []string{name},
-			Renderer:           resolve.NewPlainVariableRenderer(),
-		}}}},
-	}
-}
-
-func (f FilterSpec) Build() *resolve.SubscriptionFilter {
-	switch f.Kind {
-	case 0:
-		return nil
-	case 1, 2:
-		return &resolve.SubscriptionFilter{In: inVar("fa")}
-	case 3:
-		return &resolve.SubscriptionFilter{Not: &resolve.SubscriptionFilter{In: inVar("fa")}}
-	case 4:
-		return &resolve.SubscriptionFilter{Or: []resolve.SubscriptionFilter{{In: inVar("fa")}, {In: inVar("fb")}}}
-	default:
-		return &resolve.SubscriptionFilter{And: []resolve.SubscriptionFilter{{In: inVar("fa")}, {Not: &resolve.SubscriptionFilter{In: inVar("fb")}}}}
-	}
 }
